@@ -4,7 +4,7 @@
 From Coq Require Import ZArith QArith Qround List Bool Lia Lqa Ring.
 From NV.Lib Require Import C09Base.
 From NV.Generated Require Import JointHist.
-From NV.C09 Require Import Model Proofs1 Proofs2 Proofs3.
+From NV.C09 Require Import Model ModelPy Proofs1 Proofs2 Proofs3 Proofs4 Proofs5 Proofs6 Proofs7.
 Import ListNotations.
 Close Scope Q_scope.
 Open Scope Z_scope.
@@ -212,17 +212,117 @@ Proof.
 Qed.
 Print Assumptions hist_total_mass.
 
-(* (12) Towards the identity clause: at integer coordinates all the weight is
-   on corner (0,0,0), the voxel itself.  PARTIAL: the statement "identity
-   self-registration gives a diagonal histogram with trace = number of
-   non-negative voxels" for the whole loop is not proved in Coq; it is checked
-   on the implementation and the model by the harness (signatures kernel/identity-not-diagonal). *)
-Theorem identity_weights_partial : forall x y z : Z,
+(* (12) Identity self-registration, whole voxel loop, pv and tri, any number
+   of voxels: if every source voxel sits at integer coordinates inside the
+   target grid and the target holds the voxel's own (clamped) intensity there,
+   then every off-diagonal bin of the joint histogram is 0 and the total mass
+   (= the trace) is the number of non-negative source voxels. *)
+Theorem identity_self_registration_diagonal : forall m J d0 d1 d2 c vs,
+  wfJ J c -> 0 <= c -> Forall (fun v => vi v < c) vs -> Forall (self_located J d0 d1 d2) vs ->
+  (forall i j, 0 <= i < c -> 0 <= j < c -> i <> j ->
+     (getq (joint_hist m J d0 d1 d2 c c vs) (j + c * i) == 0)%Q) /\
+  (qsum (joint_hist m J d0 d1 d2 c c vs) == inject_Z (count_nonneg vs))%Q.
+Proof. exact identity_diagonal. Qed.
+Print Assumptions identity_self_registration_diagonal.
+
+Theorem identity_weights : forall x y z : Z,
   Forall2 Qeq (qweights (gen_nx (inject_Z x)) (gen_ny (inject_Z y)) (gen_nz (inject_Z z))
                         (inject_Z x) (inject_Z y) (inject_Z z))
               [1; 0; 0; 0; 0; 0; 0; 0]%Q.
 Proof. exact integer_coords_weights. Qed.
-Print Assumptions identity_weights_partial.
+Print Assumptions identity_weights.
+
+(* (13) L1_moments (expressions translated from the C text) on ANY histogram
+   with positive total mass - in particular every non-empty non-negative one:
+   it returns the total, the weighted median = FIRST index whose cumulative
+   mass reaches half the total, and the mean absolute deviation around that
+   median: dev * total = sum_k h_k |k - median|. *)
+Theorem L1_moments_spec : forall h N med dev,
+  (0 < qsum h)%Q -> l1_moments h = (N, med, dev) ->
+  (N == qsum h)%Q /\
+  exists m : nat, (m < length h)%nat /\ med = inject_Z (Z.of_nat m) /\
+  ((1 # 2) * qsum h <= qsum (firstn (S m) h))%Q /\
+  (forall t, (t < m)%nat -> (qsum (firstn (S t) h) < (1 # 2) * qsum h)%Q) /\
+  (dev * qsum h == wsum_from 0 (absdev (Z.of_nat m)) h)%Q.
+Proof. exact l1_moments_spec. Qed.
+Print Assumptions L1_moments_spec.
+
+(* (14) Correlation coefficient: the E[xy]-E[x]E[y] form of
+   CorrelationCoefficient.__call__ equals cov^2 / (var_I var_J) with the
+   centred double sums over H (I = column, J = row). *)
+Theorem cc_formula : forall nr nc H, length H = (nr * nc)%nat -> ~ (qsum H == 0)%Q ->
+  let R := rows nc nr H in let N := qsum H in
+  (cc_rho2 nr nc H == Hcov R N * Hcov R N / (Hvar_I R N * Hvar_J R N))%Q.
+Proof. exact Proofs5.cc_formula. Qed.
+Print Assumptions cc_formula.
+
+(* (15) Correlation ratio: 1 - (within-row sum of squares) / (total sum of
+   squares of the column marginal), whenever no `nonzero` clamp is active
+   (every row is empty or has mass >= tiny, total mass and total variance >= tiny). *)
+Theorem cr_formula : forall tiny nr nc H,
+  let R := rows nc nr H in
+  let N := qsum (map qsum R) in
+  let hI := colsum R nc in
+  (0 < tiny)%Q -> Forall (fun r => length r = nc) R -> Forall (row_ok tiny) R ->
+  (tiny <= N)%Q -> (tiny <= wsum_from 0 (sqdev (row_mean hI)) hI / N)%Q ->
+  (cr_eta2 tiny nr nc H == 1 - qsum (map ssw R) / wsum_from 0 (sqdev (row_mean hI)) hI)%Q.
+Proof. exact Proofs5.cr_formula. Qed.
+Print Assumptions cr_formula.
+
+(* (16) L1 correlation ratio: 1 - (sum_r n_r s_r / n) / s where n_r s_r is the
+   absolute deviation of row r around its weighted median (first index
+   reaching half the row mass), s the same for the column marginal. *)
+Theorem crl1_formula : forall tiny nr nc H,
+  let R := rows nc nr H in
+  (crl1_eta2 tiny nr nc H ==
+   1 - (qsum (map (fun r => qsum r * snd (l1_moments r)) R) / nonzeroQ tiny (fst (fst (l1_moments (colsum R nc)))))
+       / nonzeroQ tiny (snd (l1_moments (colsum R nc))))%Q /\
+  forall r, (0 < qsum r)%Q ->
+    exists m : nat, (m < length r)%nat /\
+  ((1 # 2) * qsum r <= qsum (firstn (S m) r))%Q /\
+  (forall t, (t < m)%nat -> (qsum (firstn (S t) r) < (1 # 2) * qsum r)%Q) /\
+  (qsum r * snd (l1_moments r) == wsum_from 0 (absdev (Z.of_nat m)) r)%Q.
+Proof. intros tiny nr nc H R. split; [apply crl1_unfold | exact row_absdev]. Qed.
+Print Assumptions crl1_formula.
+
+(* (17) clamp (float branch of _clamp, np.round = half to even): masked-out
+   voxels get -1; selected voxels get a value in 0..bins-1, the map is order
+   preserving, the minimum goes to 0 and the maximum to bins-1. *)
+Theorem clamp_range_order_mask : forall bins xs mask, 1 <= bins -> length xs = length mask ->
+  let ys := clamp_model bins xs mask in
+  length ys = length xs /\
+  forall i j, (i < length xs)%nat -> (j < length xs)%nat ->
+    (nth i mask false = false -> nth i ys 0 = -1) /\
+  (nth i mask false = true -> nth j mask false = true ->
+     (exists a b, In a (selected xs mask) /\ In b (selected xs mask) /\ (a < b)%Q) ->
+     0 <= nth i ys 0 <= bins - 1 /\
+     ((nth i xs 0 <= nth j xs 0)%Q -> nth i ys 0 <= nth j ys 0)).
+Proof. exact clamp_model_spec. Qed.
+Print Assumptions clamp_range_order_mask.
+
+Theorem clamp_extremes : forall bins xmin xmax, (xmin < xmax)%Q ->
+  clamp_val bins xmin xmax xmin = 0 /\ clamp_val bins xmin xmax xmax = bins - 1.
+Proof. exact clamp_val_ends. Qed.
+Print Assumptions clamp_extremes.
+
+(* (18) smallest_bounding_box, per axis: the box contains every masked
+   coordinate and both end faces touch the mask. *)
+Theorem smallest_bounding_box_spec : forall c0 cs, let '(corner, size) := bbox_axis c0 cs in
+  Forall (fun c => corner <= c < corner + size) (c0 :: cs) /\
+  In corner (c0 :: cs) /\ In (corner + size - 1) (c0 :: cs).
+Proof. exact bbox_axis_spec. Qed.
+Print Assumptions smallest_bounding_box_spec.
+
+(* (19) subgrid_affine(affine, slices), in every commutative ring, row by row:
+   voxel v of the sub-grid is voxel start + step*v of the image. *)
+Theorem subgrid_affine_spec :
+  forall (R : Type) (rO rI : R) (radd rmul rsub : R -> R -> R) (ropp : R -> R),
+  ring_theory rO rI radd rmul rsub ropp (@eq R) ->
+  forall (r : row4 R) s1 s2 s3 o1 o2 o3 v1 v2 v3,
+  app_row R radd rmul (sg_row R radd rmul r s1 s2 s3 o1 o2 o3) v1 v2 v3
+  = app_row R radd rmul r (radd o1 (rmul s1 v1)) (radd o2 (rmul s2 v2)) (radd o3 (rmul s3 v3)).
+Proof. exact sg_row_spec. Qed.
+Print Assumptions subgrid_affine_spec.
 
 (* non-vacuity: a voxel at (1/2, 1/4, 0) in a 2x2x2 target (padded 4x4x4) *)
 Example pv_example :
